@@ -23,7 +23,7 @@ LEVEL_NOTE = ('trusted: rninja (no ninja binary), CrossHair string/regex models 
               'invariant is assumed (C12)')
 HARNESS = 'vpx.harness.c04'
 FUNCTIONS = ['bfg9000.backends.make.syntax.Writer.escape_str', 'Writer.write (BasePath branch)',
-             'bfg9000.backends.make.writer.directory_deps', 'bfg9000.path.BasePath.realize',
+             'bfg9000.backends.make.writer.directory_deps', 'backends.make.writer.directory_rule', 'bfg9000.builtins.find.write_depfile', 'bfg9000.path.BasePath.realize',
              'bfg9000.backends.make.syntax.Variable.use (qvar)', 'posix.inner_quote_info',
              'posix.wrap_quotes', 'bfg9000.backends.ninja.syntax.Writer.escape_str',
              'NinjaFile._write_build']
@@ -35,7 +35,7 @@ OUTSIDE = ['non-ASCII names', 'backslash in names and drive-letter forms (define
 STUBS = []
 ASSUMPTIONS = ['Path suffix representation invariant (C12)', 'rninja trusted']
 MAKE_FNS = ['mt_target', 'md_prereq', 'mo_dir_sentinel', 'mr_auto_var', 'mf_find_deps',
-            'ms_source_prereq', 'mi_include']
+            'ms_source_prereq', 'mi_include', 'mx_dir_rule']
 NINJA_FNS = ['nt_output', 'ni_input', 'nb_build_line']
 CORPUS_ALPHA = list("a\\ :#%*]~$|;=()'&\t")
 
@@ -139,6 +139,8 @@ def obligations(tier, kf):
             for fn in MAKE_FNS + NINJA_FNS:
                 if fn == 'mo_dir_sentinel' and shape == 1:
                     continue
+                if fn == 'mx_dir_rule' and (shape == 2 or rooti == 1):
+                    continue
                 for n in range(1, nmax + 1):
                     if tier == 'quick' and fn == 'ms_source_prereq' and (shape, rooti) == (0, 0):
                         pass       # length 3 below
@@ -153,6 +155,10 @@ def obligations(tier, kf):
                     if n == 2 and shape == 0 and rooti == 0:
                         for m in MUTANTS.get(fn, []):
                             obs.append(ob.mutant(m))
+    # a directory whose name starts with the sentinel's own name
+    dr = Ob('mx_dir_rule', dict(kf, N=5, shape=0, rooti=0, excl=excl, cprefix='.dir'), 600,
+            desc='mx_dir_rule, component .dir<c>')
+    obs += [dr, dr.mutant('dir_rule_subst')]
     if tier == 'quick':
         # '[x]' needs three characters
         obs.append(Ob('ms_source_prereq', dict(kf, N=3, shape=0, rooti=0, excl=excl, first='['),
@@ -163,17 +169,21 @@ def obligations(tier, kf):
 
 
 MUTANTS = {'mt_target': ['make_target_no_colon'], 'md_prereq': ['make_dep_no_pipe'],
-           'mi_include': ['make_include_double_escape'],
+           'mi_include': ['make_include_double_escape'],            'mf_find_deps': ['depfile_target_escape_for_prereq'],
            'nt_output': ['ninja_path_no_colon'], 'mr_auto_var': ['make_qvar_unquoted']}
 
 
 def classify(ob, cex):
     c = cex['args'][0]
-    if ob.fn.startswith('m') and ob.fn not in ('mr_auto_var', 'mi_include', 'ms_source_prereq'):
+    if ob.fn.startswith('m') and ob.fn not in ('mr_auto_var', 'mi_include', 'ms_source_prereq', 'mx_dir_rule'):
         if c.startswith('~') and ob.params.get('shape') == 1:
             return 'C04-F10'
         if '[' in c:
             return 'C04-F9'
+    if ob.fn == 'mx_dir_rule' and '  ' in c:
+        return 'C04-F18'
+    if ob.fn == 'mx_dir_rule' and "'" in c:
+        return 'C04-F11'
     if ob.fn == 'mi_include' and (':' in c or '%' in c or c.startswith('~')):
         return 'C04-F15'
     if ob.fn == 'mr_auto_var' and "'" in c:
